@@ -1,6 +1,7 @@
 package main
 
 import (
+	"math"
 	"fmt"
 	"strconv"
 	"strings"
@@ -444,6 +445,25 @@ func genReadLimits(g *Gen, emit func(readCfg, []byte)) {
 				emit(cc, frameSpec{fin: true, rsv1: true, opcode: 2, masked: server, key: key, payload: deflateRaw(rnd, nil, 1)}.bytes())
 				g.Count("limits")
 			}
+		}
+	}
+	// "no limit": the largest configurable values (a limit of MaxInt is the usual way to say unlimited; limit+1 overflows).
+	// Messages of ordinary size, plain, fragmented and compressed, must be delivered as with any other limit above their size.
+	for _, limit := range []int{math.MaxInt64, math.MaxInt64 - 1, math.MaxInt32, math.MaxInt32 + 1, 1 << 40} {
+		for _, server := range []bool{true, false} {
+			payload := bytesOf(720, 'a')
+			c := readCfg{server: server, dpsBits: -1, limit: limit}
+			emit(c, frameSpec{fin: true, opcode: 2, masked: server, key: key, payload: payload}.bytes())
+			cc := readCfg{server: server, pd: true, dpsBits: -1, limit: limit}
+			comp := deflateRaw(payload, nil, 9)
+			emit(cc, frameSpec{fin: true, rsv1: true, opcode: 2, masked: server, key: key, payload: comp}.bytes())
+			s := frameSpec{fin: false, rsv1: true, opcode: 2, masked: server, key: key, payload: comp[:len(comp)/2]}.bytes()
+			s = append(s, frameSpec{fin: true, opcode: 0, masked: server, key: key, payload: comp[len(comp)/2:]}.bytes()...)
+			emit(cc, s)
+			emit(cc, frameSpec{fin: true, rsv1: true, opcode: 1, masked: server, key: key, payload: deflateFinal([]byte("hello hello hello"), nil, 1)}.bytes())
+			ct := readCfg{server: server, pd: true, dpsBits: 10, limit: limit}
+			emit(ct, frameSpec{fin: true, rsv1: true, opcode: 2, masked: server, key: key, payload: deflateRaw(g.R.Bytes(300), nil, 1)}.bytes())
+			g.Count("limits-max")
 		}
 	}
 	// bombs: a few hundred wire bytes inflating to far more than the limit
